@@ -378,13 +378,14 @@ func C18Worker(i, n int, tier string) {
 }
 
 func runC18(r *core.Run) {
-	r.Rule = "for every structure type 1-3 shared values (parsed and constructed; offline / unsorted-options variants) x the read-only operation set found by reflection (every argument-free exported method, Equals(self), GetOption, size lookups): step 1, each operation alone with a hook at EVERY statement of the instrumented library hashing a deep snapshot of receiver graph + ALL package-level variables (any transient change is a mutation); step 2, exhaustive preemption-bounded interleaving of every unordered pair of operations on the same value under a cooperative scheduler (bound 1; bound 2 for pairs containing an operation that step 1 saw writing; thorough: bound 2 for all pairs and triples of a core set), each schedule judged by result == solo result and final snapshot == initial snapshot; step 3 (secondary guard) the same operations free-running in 8 goroutines under the race detector. states = yield points reached, transitions = scheduling choices, traces = complete schedules. non-trivial = distinct (value, pair) scenarios explored"
+	r.Rule = "for every structure type 1-3 shared values (parsed and constructed; offline / unsorted-options variants) x the read-only operation set found by reflection (every argument-free exported method, Equals(self), GetOption, size lookups): step 0, first-operation histories on freshly built copies (for every value and every operation i: i first, then the whole set; every answer must equal the answer given when that operation is itself the first call); step 1, each operation alone with a hook at EVERY statement of the instrumented library hashing a deep snapshot of receiver graph + ALL package-level variables (any transient change is a mutation); step 2, exhaustive preemption-bounded interleaving of every unordered pair of operations on the same value under a cooperative scheduler (bound 1; bound 2 for pairs containing an operation that step 1 saw writing; thorough: bound 2 for all pairs and triples of a core set), each schedule judged by result == solo result and final snapshot == initial snapshot; step 3 (secondary guard) the same operations free-running in 8 goroutines under the race detector. states = yield points reached, transitions = scheduling choices, traces = complete schedules. non-trivial = distinct (value, pair) scenarios explored"
 	r.Assume("statement-granularity atomicity and sequential consistency in step 2; same-value writes and sub-statement races are visible to step 3 only (sampling)", "go-i2p/crypto and logrus internals are atomic steps (not instrumented); *logger.Logger values are skipped in snapshots")
 	if !instrumented {
 		r.Violate("C18|harness|not-instrumented", "C18 must be run through ./vrun, which builds the instrumented binary (bin/vcheck18)", core.Case{Kind: "harness"})
 		return
 	}
 	r.WatchProgress(false) // this process only waits for its workers (each has its own deadline)
+	c18FirstOpHistories(r)
 	n := core.Workers()
 	results := make([]c18Result, n)
 	var wg sync.WaitGroup
